@@ -1,5 +1,14 @@
-"""Property id -> check class."""
+"""Property id -> check class; engines; properties not (yet) claimed."""
 from . import e1
 
 PROPS = {}
 PROPS.update(e1.PROPS)
+
+ENGINES = [
+    {"name": "E1-create-hashers", "path": "vh/e1.py", "serves_properties": ["C01", "C02", "C03", "C10", "C15"],
+     "kind_free_text": "TLC model checking of HasherV1/HasherV2 + TLC trace validation (TraceCreate.tla) of recorded creates"},
+]
+
+ALL = ["C%02d" % i for i in range(1, 21)]
+NOT_APPLICABLE = [{"property_id": p, "reason": "check not built yet in this round (planned in DESIGN.md section 6); not claimed until its TLA+ spec and trace binding exist"}
+                  for p in ALL if p not in PROPS]
